@@ -11,13 +11,19 @@ R33b each selection tests `np.scope == NotificationScope.<M>`; the members are p
 R33c candidate preferences come from the topic-filtered query with the function's topic parameter;
      publish_message skips (continue) the subscription whose user is the new contributor before
      _post_webpush on the NEW_CONTRIBUTOR topic, and posts once per subscription.
+R33d one row per browser subscription: WebPushRepository.store_subscription looks the (user, endpoint) row up and constructs a new
+     WebPushSubscription only when none was found (every row is posted to, so a second row for the same endpoint is a second
+     notification).
+R33e "runs they contributed to" means the current run: in RecentEngineRepository.store_recent_engine the stored contributors
+     are taken over only when the stored run id equals the current run's id (compared before the stored id is overwritten),
+     and they are cleared when no run is active - the restore after a reconnect trusts what is stored.
 Decides the selection structure; database contents are outside.
 """
 from __future__ import annotations
 
 import ast
 
-from ..model import AnchorError, norm, walk_no_nested
+from ..model import AnchorError, norm, walk_no_nested, parent_map
 from ..util import cfg_of, call_attr, enum_members, local_single_defs
 
 EXPLANATION = __doc__
@@ -31,6 +37,7 @@ def _conj(e: ast.AST) -> list[ast.AST]:
 
 
 def run(ctx) -> None:
+    _repo_rules(ctx)
     prog = ctx.prog
     f = prog.func(f"{CLS}._get_subscriptions_for_topic")
     ctx.analysed(f)
@@ -162,3 +169,103 @@ def run(ctx) -> None:
     else:
         ctx.fail("R33c", pm, pm.node, "publish_message iterates _get_subscriptions_for_topic(topic, process_unit, ...)",
                  "subscriptions are not the entitled ones")
+
+
+
+def _repo_rules(ctx) -> None:
+    prog = ctx.prog
+    ctx.rule("R33d", "store_subscription updates the existing (user, endpoint) row instead of adding a second one")
+    ctx.rule("R33e", "stored contributors belong to the stored run only")
+    REPO = "openpectus.aggregator.data.repository"
+    f = prog.func(f"{REPO}:WebPushRepository.store_subscription")
+    ctx.analysed(f)
+    pm = parent_map(f.node)
+    ctors = [c for c in ast.walk(f.node) if isinstance(c, ast.Call) and norm(c.func) == "WebPushSubscription"]
+    if not ctors:
+        raise AnchorError("store_subscription: no WebPushSubscription() construction")
+    lookups = [c for c in ast.walk(f.node) if isinstance(c, ast.Compare) and norm(c.left) == "WebPushSubscription.endpoint"]
+    inst = "store_subscription: a new row is constructed only when no row with this endpoint exists"
+    conditional = True
+    for c in ctors:
+        x, cond = c, False
+        while id(x) in pm:
+            par = pm[id(x)]
+            if isinstance(par, ast.IfExp) and x is not par.test:
+                cond = True
+            if isinstance(par, ast.If) and x not in [par.test]:
+                cond = True
+            x = par
+        conditional = conditional and cond
+    if lookups and conditional:
+        ctx.ok("R33d", inst)
+    else:
+        ctx.fail("R33d", f, ctors[0], inst, "every subscribe request inserts a row" + ("" if lookups else " (no look-up by endpoint)") +
+                 ": a repeated request of the same browser (double click, retry) leaves two rows for one subscription and "
+                 "publish_message posts every notification to it twice")
+    g = prog.func(f"{REPO}:RecentEngineRepository.store_recent_engine")
+    ctx.analysed(g)
+    gdefs = local_single_defs(g)
+    # the RecentEngine local: receiver of `.contributors = ...`
+    writes = [st for st in ast.walk(g.node) if isinstance(st, ast.Assign) and len(st.targets) == 1 and isinstance(st.targets[0], ast.Attribute)
+              and st.targets[0].attr == "contributors" and isinstance(st.targets[0].value, ast.Name)]
+    if not writes:
+        raise AnchorError("store_recent_engine: no assignment to <recent engine>.contributors")
+    R = writes[0].targets[0].value.id
+    id_writes = [st for st in ast.walk(g.node) if isinstance(st, ast.Assign) and norm(st.targets[0]) == f"{R}.run_id"
+                 and not (isinstance(st.value, ast.Constant) and st.value.value is None)]
+    reads = [x for x in ast.walk(g.node) if isinstance(x, ast.Attribute) and x.attr == "contributors" and isinstance(x.ctx, ast.Load)
+             and isinstance(x.value, ast.Name) and x.value.id == R]
+    gpm = parent_map(g.node)
+    inst = f"store_recent_engine: stored contributors are taken over only for the same run"
+    bad = None
+    for r in reads:
+        x, guarded = r, False
+        while id(x) in gpm:
+            par = gpm[id(x)]
+            if isinstance(par, (ast.IfExp, ast.If)) and x is not par.test:
+                from ..util import expand_local
+                t = expand_local(par.test, gdefs)
+                for cmp_ in ast.walk(t):
+                    if isinstance(cmp_, ast.Compare) and len(cmp_.ops) == 1 and isinstance(cmp_.ops[0], (ast.Eq, ast.NotEq)) \
+                            and {norm(cmp_.left).split(".")[-1], norm(cmp_.comparators[0]).split(".")[-1]} == {"run_id"} \
+                            and f"{R}.run_id" in (norm(cmp_.left), norm(cmp_.comparators[0])):
+                        # evaluated before the stored id is overwritten
+                        src = par.test
+                        src_line = min([n.lineno for n in ast.walk(g.node) if isinstance(n, ast.Assign) and isinstance(n.targets[0], ast.Name)
+                                        and isinstance(src, ast.Name) and n.targets[0].id == src.id] or [par.lineno])
+                        if all(src_line < w.lineno for w in id_writes):
+                            guarded = True
+            x = par
+        if not guarded:
+            bad = r
+    if reads and bad is None:
+        ctx.ok("R33e", inst)
+    elif not reads:
+        ctx.ok("R33e", inst + " (the stored contributors are never read back)")
+    else:
+        ctx.fail("R33e", g, bad, inst, f"`{R}.contributors` of the stored record is merged into the new record whatever run it was stored "
+                 "for: the contributors of an earlier run are restored after a reconnect during a later run and its "
+                 "'runs I have contributed to' subscribers are notified about a run they never touched")
+    inst = "store_recent_engine: the stored contributors are cleared when no run is active"
+    clears = [w for w in writes if (isinstance(w.value, (ast.List, ast.Set)) and not getattr(w.value, "elts", [1]))
+              or (isinstance(w.value, ast.Call) and norm(w.value.func) in ("list", "set") and not w.value.args)
+              or (isinstance(w.value, ast.Constant) and w.value.value is None)]
+    gg = cfg_of(g)
+    ok_clear = False
+    for w in clears:
+        for n in gg.nodes_for(w):
+            if any(norm(expand_local_safe(t, gdefs)).endswith(".has_run()") and not pol for t, pol in gg.conditions_at(n)):
+                ok_clear = True
+    if ok_clear:
+        ctx.ok("R33e", inst)
+    else:
+        ctx.fail("R33e", g, g.node, inst, "the record of an engine without a run keeps the contributors of its last run; they are merged "
+                 "into the next run's record")
+
+
+def expand_local_safe(t, defs):
+    from ..util import expand_local
+    try:
+        return expand_local(t, defs)
+    except Exception:
+        return t
